@@ -134,7 +134,9 @@ fn schedules(max_reads: usize) -> Vec<Vec<usize>> {
 
 fn run_job(shape: usize, order: usize, kind: usize, thorough: bool) -> JobOut {
     let mut out = JobOut::default();
-    let ns: Vec<usize> = if thorough { vec![200, 2000, 20000, 100000] } else { vec![200, 2000] };
+    // quick: n = 20000 for two shapes x three orders (size bound and accuracy at large n / small steps)
+    let big_in_quick = (shape == 0 || shape == 2) && (order == 0 || order == 2 || order == 4);
+    let ns: Vec<usize> = if thorough { vec![200, 2000, 20000, 100000] } else if big_in_quick { vec![200, 2000, 20000] } else { vec![200, 2000] };
     for &n in &ns {
         let sorted: Vec<f64> = (0..n).map(|i| shape_value(shape, (i as f64 + 0.5) / n as f64)).collect();
         let perm = order_perm(order, n);
@@ -145,8 +147,8 @@ fn run_job(shape: usize, order: usize, kind: usize, thorough: bool) -> JobOut {
                 continue;
             }
             let wb = w_bound(kind, delta, n);
-            let backlogs: Vec<usize> = if n >= 100000 { vec![0, 100, n] } else { vec![0, 1, 10, 100, 1000, n] };
-            let max_reads = if n >= 100000 { 0 } else if n >= 20000 { 1 } else if thorough { 2 } else { 1 };
+            let backlogs: Vec<usize> = if n >= 100000 { vec![0, 100, n] } else if n >= 20000 && !thorough { vec![1, 100, n] } else { vec![0, 1, 10, 100, 1000, n] };
+            let max_reads = if n >= 100000 { 0 } else if n >= 20000 { if thorough { 1 } else { 0 } } else if thorough { 2 } else { 1 };
             for &backlog in &backlogs {
                 for sched in schedules(max_reads) {
                     out.runs += 1;
